@@ -553,7 +553,8 @@ def run_property(mod, tier: str, argv_opts) -> int:
         "wall_s": round(time.time() - t0, 2),
         "violations": len(violations),
     }
-    if not only and not argv_opts.get("corpus_only"):
+    # evidence describes /repo only: runs against a scratch/mutant tree (VERIF_REPO) never write it
+    if not only and not argv_opts.get("corpus_only") and os.path.realpath(REPO_DIR) == "/repo":
         os.makedirs(os.path.join(VERIF_DIR, "evidence"), exist_ok=True)
         with open(os.path.join(VERIF_DIR, "evidence", prop_id + ".json"), "w") as f:
             json.dump(evidence, f, indent=1, sort_keys=True, default=_json_default)
